@@ -9,6 +9,7 @@ import (
 
 	sdkmath "cosmossdk.io/math"
 	sdk "github.com/cosmos/cosmos-sdk/types"
+	"github.com/cosmos/cosmos-sdk/types/bech32"
 	banktypes "github.com/cosmos/cosmos-sdk/x/bank/types"
 	"github.com/ethereum/go-ethereum/common"
 
@@ -99,6 +100,10 @@ func (o Op) Coq() string {
 		return f("OWfxDeposit", zi(o.A), z(o.X))
 	case "WfxWithdraw":
 		return f("OWfxWithdraw", zi(o.A), z(o.X))
+	case "PreCrossChainIbc":
+		return f("OPreCrossChainIbc", zi(o.T), zi(o.A), z(o.X), lib.Bool(o.Flag))
+	case "IbcRecv":
+		return f("OIbcRecv", zi(o.T), zi(o.A), z(o.X))
 	case "IbcMint":
 		return f("OIbcMint", zi(o.T), zi(o.A), z(o.X))
 	case "IbcToBase":
@@ -378,12 +383,44 @@ func (w *World) Exec(o *Op) error {
 		})
 	case "BaseToIbc":
 		return w.try(func(ctx sdk.Context) error {
-			if w.Toks[o.T].IBCDenom == "" || w.Toks[o.T].Kind == lib.TokFX {
-				return fmt.Errorf("no ibc alias")
-			}
-			_, e := c.App.EthKeeper.BaseCoinToIBCCoin(ctx, w.coin(o.T, 0, o.X), w.Addr(o.A), "ibc/0/px")
+			_, e := c.App.EthKeeper.BaseCoinToIBCCoin(ctx, w.coin(o.T, 0, o.X), w.Addr(o.A), ibcTarget)
 			return e
 		})
+	case "PreCrossChainIbc":
+		return w.try(func(ctx sdk.Context) error {
+			tk := w.Toks[o.T]
+			to, _ := bech32.ConvertAndEncode("px", w.Addr(o.A))
+			args := crosschaintypes.CrossChainArgs{Token: tk.ERC20, Receipt: to, Amount: big.NewInt(o.X), Fee: big.NewInt(0),
+				Target: fxtypes.MustStrToByte32(ibcTarget), Memo: ""}
+			var value *big.Int
+			if o.Flag {
+				args.Token = common.Address{}
+				value = big.NewInt(o.X)
+			} else {
+				ap, _ := fip20.Pack("approve", lib.CrosschainPrecompile, big.NewInt(o.X))
+				if e := w.evmTx(ctx, w.Hex(o.A), tk.ERC20, nil, ap); e != nil {
+					return e
+				}
+			}
+			data, e := precompile.NewCrossChainMethod(nil).PackInput(args)
+			if e != nil {
+				return e
+			}
+			return w.evmTx(ctx, w.Hex(o.A), lib.CrosschainPrecompile, value, data)
+		})
+	case "IbcRecv":
+		// a real inbound ICS-20 packet: the native coin coming back, or the remote denom whose voucher is the token's IBC alias
+		tk := w.Toks[o.T]
+		denom := "transfer/" + ibcChannel + "/" + fxtypes.DefaultDenom
+		if tk.Kind != lib.TokFX {
+			denom = strings.ToLower(tk.Symbol) + "-remote"
+		}
+		w.ibcSeq++
+		ok, ack := ibcRecv(c, c.Ctx, w.ibcSeq, ibcChannel, denom, fmt.Sprint(o.X), "px1remote", w.Hex(o.A).Hex(), "")
+		if !ok {
+			return fmt.Errorf("error acknowledgement: %s", ack)
+		}
+		return nil
 	}
 	panic("exec " + o.K)
 }
